@@ -25,6 +25,50 @@ class SymArray(_np.ndarray):
             total = total + self[idx]
         return total
 
+    # element-wise Python arithmetic (numpy's own operators go through ufuncs, which the proxies refuse)
+    def _ew(self, other, fn):
+        res = _np.empty(self.shape, dtype=object)
+        if isinstance(other, _np.ndarray):
+            if other.shape != self.shape:
+                raise Unsupported("broadcasting between arrays of different shapes")
+            for idx in _np.ndindex(self.shape):
+                res[idx] = fn(self[idx], other[idx])
+        else:
+            for idx in _np.ndindex(self.shape):
+                res[idx] = fn(self[idx], other)
+        return res.view(SymArray)
+
+    def __add__(self, o):
+        return self._ew(o, lambda a, b: a + b)
+
+    def __radd__(self, o):
+        return self._ew(o, lambda a, b: b + a)
+
+    def __iadd__(self, o):
+        r = self._ew(o, lambda a, b: a + b)
+        self[...] = r
+        return self
+
+    def __sub__(self, o):
+        return self._ew(o, lambda a, b: a - b)
+
+    def __rsub__(self, o):
+        return self._ew(o, lambda a, b: b - a)
+
+    def __isub__(self, o):
+        r = self._ew(o, lambda a, b: a - b)
+        self[...] = r
+        return self
+
+    def __mul__(self, o):
+        return self._ew(o, lambda a, b: a * b)
+
+    def __rmul__(self, o):
+        return self._ew(o, lambda a, b: b * a)
+
+    def __truediv__(self, o):
+        return self._ew(o, lambda a, b: a / b)
+
 
 def _det(M):
     n = len(M)
